@@ -10,7 +10,7 @@ from vf.xmodel import Schema, Rop, build_api, build_loader
 
 SHARDS = {'quick': 16, 'thorough': 32}
 TIMEOUT = {'quick': 900, 'thorough': 5400}
-MUST_HIT = ['ArgModel.creation', 'IdFresh.defaulted-id', 'IdFresh.generator-next', 'Generator.peek',
+MUST_HIT = ['Generator.swapped', 'ArgModel.creation', 'IdFresh.defaulted-id', 'IdFresh.generator-next', 'Generator.peek',
             'Generator.integer-sequence', 'UnknownType.rejected', 'Referential.argument']
 MUST_REACH = ['xtuml/meta.py:MetaClass.default_value', 'xtuml/meta.py:MetaClass.new',
               'xtuml/tools.py:IdGenerator.peek', 'xtuml/tools.py:IdGenerator.next',
@@ -22,7 +22,7 @@ RULE = ('random schemas (1-3 classes, 1-7 attributes of the five core types in l
         'the API or the loader with a UUID, integer or user-supplied generator (random injective '
         'non-zero sequence); creation sequences of 5-40 instances with a random positional prefix, '
         'random keyword subset (random spelling) and the rest omitted, interleaved with peek()/next() '
-        'on the generator. Non-trivial = the creation mixes at least two of positional / keyword / '
+        'on the generator; in three of ten histories the metamodel\'s id_generator is replaced half-way. Non-trivial = the creation mixes at least two of positional / keyword / '
         'defaulted attributes; distinct by hash of (schema, arguments).')
 ASSUMPTIONS = ['freshness is required among defaulted identifiers only (an explicit id may collide)',
                'user generators yield injective non-zero sequences']
@@ -84,9 +84,11 @@ def make_generator(rng, kind, log):
 
 def run_case(ctx, rng, n_case):
     import xtuml
-    log = []          # values yielded by the generator, in order
+    log = []          # values yielded by the metamodel's current generator, in order
     gkind = rng.choice(('uuid', 'integer', 'integer', 'user'))
     gen = make_generator(rng, gkind, log)
+    swap_at = rng.randint(3, 30) if rng.random() < 0.3 else None
+    cur = dict(log=log)
     # schema
     classes = []
     rops = []
@@ -111,6 +113,7 @@ def run_case(ctx, rng, n_case):
         orig = mc.default_value
 
         def wrapped(type_name, orig=orig):
+            log = cur['log']
             before = len(log)
             v = orig(type_name)
             if type_name.upper() == 'UNIQUE_ID':
@@ -134,6 +137,15 @@ def run_case(ctx, rng, n_case):
         if [t.Id for t in targets] != [1, 2]:
             raise Mismatch('generator/integer-sequence', 'first integer ids are %r' % [t.Id for t in targets])
     for i in range(rng.randint(5, 40)):
+        if swap_at is not None and i == swap_at:
+            # the metamodel gets another generator (the only way to choose one for a model obtained
+            # from load_metamodel): from now on defaults must come from it
+            ctx.hit('Generator.swapped')
+            log = []                       # the replaced generator keeps its own log
+            cur['log'] = log
+            gkind = 'uuid' if gkind != 'uuid' else 'user'
+            gen = make_generator(rng, gkind, log)
+            m.id_generator = gen
         k = rng.random()
         if k < 0.15:
             ctx.hit('Generator.peek')
